@@ -284,3 +284,51 @@ def rule_budget_continuity(ctx: Ctx, rule: str) -> None:
            'one running total over both passes (or self.limit reduced between them)',
            (f'{len(passes)} passes, `total = 0` local to each, self.limit never reduced' if local_total else f'self.total writers: {attr_writers}') if not ok else 'continuous',
            note='F3', witness="glob(['a','b','c'], limit=3, exclude=['x','y','z']) does not raise although 6 > 3")
+
+
+# ------------------------------------------------------------------------------------------------ R6
+# entry point -> the calls through which its patterns reach the expansion (callee spelled as in the source)
+EXPANSION_ROUTES = {
+    ('fnmatch', 'fnmatch'): ('_wcparse.compile',), ('fnmatch', 'filter'): ('_wcparse.compile',), ('fnmatch', 'translate'): ('_wcparse.translate',),
+    ('glob', 'translate'): ('_wcparse.translate',), ('glob', 'compile'): ('_wcparse.compile',),
+    ('glob', 'globmatch'): ('_wcparse.compile',), ('glob', 'globfilter'): ('_wcparse.compile',),
+    ('glob', 'glob'): ('iglob',), ('glob', 'iglob'): ('Glob',),
+    ('glob', 'Glob.__init__'): ('self._parse_patterns',),
+    ('pathlib', 'PurePath.match'): ('self.globmatch',), ('pathlib', 'PurePath.globmatch'): ('glob.globmatch',), ('pathlib', 'PurePath.full_match'): ('glob.globmatch',),
+    ('pathlib', 'Path.glob'): ('glob.iglob',), ('pathlib', 'Path.rglob'): ('self.glob',),
+    ('wcmatch', 'WcMatch.__init__'): ('self._compile',), ('wcmatch', 'WcMatch._compile_wildcard'): ('_wcparse.compile',),
+}
+
+
+def rule_expansion_unavoidable(ctx: Ctx, rule: str) -> None:
+    ctx.text(rule, 'the limit is enforced where the patterns are expanded, so every entry point must reach the expansion on every path to a '
+                   'normal return: in the CFG of each entry point the exit is unreachable once the delegating calls are removed (a fast path '
+                   'that answers without expanding the patterns also skips the check)')
+    repo = ctx.repo
+    n = 0
+    for (mod, qn), routes in sorted(EXPANSION_ROUTES.items()):
+        fi = repo.func(mod, qn)
+        q = fq(fi)
+        calls = q.nodes_of_calls(lambda s, routes=routes: s in routes)
+        n += 1
+        if not calls:
+            ctx.ob(rule, f'{mod}:{qn}/reaches-expansion', False, repo.loc(mod, fi.node), f'delegates to {" / ".join(routes)}', 'no such call')
+            continue
+        free = q.cfg.exit.id in q.cfg.reachable_from(q.cfg.entry.id, blocked_nodes=calls, labels={'n', 'T', 'F'})
+        how = ''
+        if free:
+            # name the branch that escapes: the first conditional whose one side reaches the exit without a delegating call
+            for c in q.cfg.nodes:
+                if c.kind == 'cond':
+                    for lab, d in c.succ:
+                        if lab in ('T', 'F') and d not in calls and q.cfg.exit.id in q.cfg.reachable_from(d, blocked_nodes=calls, labels={'n', 'T', 'F'}) and \
+                                not (q.cfg.reachable_from(d, labels={'n', 'T', 'F'}) & calls) and \
+                                c.id in q.cfg.reachable_from(q.cfg.entry.id, blocked_nodes=calls, labels={'n', 'T', 'F'}):
+                            how = f'`{norm_src(c.ast)[:60]}` is {lab == "T"}'
+                            break
+                    if how:
+                        break
+        ctx.ob(rule, f'{mod}:{qn}/reaches-expansion', not free, repo.loc(mod, fi.node), f'no normal return without {" / ".join(routes)}(...)',
+               'every path delegates' if not free else f'a path returns without expanding the patterns ({how or "unconditionally"})',
+               witness='an over-limit pattern list must raise PatternLimitException whatever else the arguments are')
+    ctx.floor(rule, 'entry points', n, 15)
